@@ -67,6 +67,12 @@ func (p *Pruner) feasible(x *Exec, hyps []string) bool {
 	}
 	sb.WriteString("(push)\n")
 	for _, h := range hyps {
+		// quantified facts are left out: an unsatisfiable subset still proves the
+		// path infeasible, and quantifier-free checks answer at once (with them
+		// every check ran into the time limit on functions with deep invariants)
+		if strings.Contains(h, "(forall ") || strings.Contains(h, "(exists ") {
+			continue
+		}
 		sb.WriteString("(assert " + h + ")\n")
 	}
 	sb.WriteString("(check-sat)\n(pop)\n")
@@ -97,4 +103,15 @@ func (p *Pruner) feasible(x *Exec, hyps []string) bool {
 			}
 		}
 	}
+}
+
+// prunable: the state's path condition is known to be unsatisfiable.
+func (x *Exec) prunable(st *State) bool {
+	if st.infeasible() {
+		return true
+	}
+	if x.pruner == nil {
+		return false
+	}
+	return !x.pruner.feasible(x, st.pcList())
 }
